@@ -233,6 +233,8 @@ def model_solve_compare(ctx, comps, executed, solves, name, replay):
         Tm = gen.json_mat_np([z for row in m["T"] for z in row], n, n) if n else np.zeros((0, 0), complex)
         Tm = Tm[np.ix_(order, order)] if n else Tm
         ctx.tag("model:wiring-solve")
+        import circuits as _cs
+        _cs.hyp_tags(ctx, m.get("hyp"))
         if Tm.size and float(np.max(np.abs(Tm - T))) > 1e-9 * max(1.0, cond):
             ctx.disagreement(name, f"solve of the network the model state denotes differs from the code's solve after the history (step {k})", replay)
             return
